@@ -114,7 +114,8 @@ def scenario(rng, kind=None, mode=None, removal=None, builtin_p=0.6, prog_p=0.4)
     model = rng.choice(["NRTL", "NRTL", "UNIQUAC"])
     T0 = rng.uniform(290.0, 380.0)
     sc = {"mix": mix, "kind": kind, "mode": mode, "model": model, "T0": T0,
-          "N": rng.choice([1, 2, 3, 5, 8, 12]), "A": gen.logu(rng, 1e-2, 1e2), "m0": gen.logu(rng, 1e-1, 1e3),
+          "N": rng.choice([1, 2, 3, 5, 8, 12]), # from a laboratory cell (grams of feed on a few cm2) to a plant
+          "A": gen.logu(rng, 1e-4, 1e2), "m0": gen.logu(rng, 1e-3, 1e3),
           "x0": rng.uniform(0.05, 0.95), "basis": gen.tstr(rng, rng.choice(["weight", "weight", "molar"])),
           "Tperm": None, "pperm": None, "prog": None, "prec": rng.choice([5e-5, 1e-6, 1e-4]),
           "membrane": make_membrane(rng, mix), "curves": None, "P0": None,
